@@ -69,7 +69,30 @@ def finding(fid):
         if r is None:
             return False, {}, "LZMA2 folders stop at the declared size"
         return True, r["inputs"], r["observed"]
+    if fid == "F32-7z-file-count-sizes-tables":
+        return sevenzip_file_count()
     return False, {}, "unknown finding"
+
+
+def sevenzip_file_count(n=4_000_000):
+    """A 43-byte 7z archive whose header declares `n` files and ends there: the per-entry tables are allocated before any entry is read."""
+    import struct
+    import tracemalloc
+    import zlib
+    from sharepoint2text.parsing.extractors.archive_extractor import read_archive
+    hdr = bytes([0x01, 0x05]) + b"\xff" + struct.pack("<Q", n)          # PROP_HEADER, PROP_FILES_INFO, number of files; end of header
+    start = struct.pack("<QQI", 0, len(hdr), zlib.crc32(hdr) & 0xFFFFFFFF)
+    data = b"7z\xbc\xaf\x27\x1c" + bytes([0, 4]) + struct.pack("<I", zlib.crc32(start) & 0xFFFFFFFF) + start + hdr
+    tracemalloc.start()
+    err = None
+    try:
+        list(read_archive(io.BytesIO(data), "x.7z"))
+    except Exception as e:  # noqa
+        err = f"{type(e).__name__}: {str(e)[:80]}"
+    peak = tracemalloc.get_traced_memory()[1]
+    tracemalloc.stop()
+    return peak > 1000 * len(data) + 1_000_000, {"input_bytes": len(data), "declared_files": n, "header": "01 05 ff <n as u64>"}, \
+        f"peak additional memory {peak} bytes from a {len(data)}-byte archive declaring {n} files ({err})"
 
 
 
@@ -1240,7 +1263,7 @@ def find(req):
         return r
 
     # ---- explicit limits
-    if generic or "read_file" in ob:
+    if generic or "read_file" in ob or "router.py::" in ob:
         r = hit(limits_read_file() or limits_file_types())
         if r:
             return r
@@ -1257,6 +1280,11 @@ def find(req):
         if r is not None:
             return r
     # ---- 7z: declared folder sizes, members sharing a path
+    if "_parse_files_info" in ob or "_read_boolean_vector" in ob or ("sevenzip.py::" in ob and "repeat-site" in ob):
+        ok, inputs, obs = sevenzip_file_count()
+        if ok:
+            return {"reproduced": True, "target": ob, "inputs": inputs, "observed": obs, "expected": "allocation bounded by a fixed multiple of the input size"}
+        return {"reproduced": False, "note": obs}
     if generic or "sevenzip.py::" in ob or "_decompress" in ob:
         r = sevenzip_declared(ob)
         if r is not None:
